@@ -258,6 +258,8 @@ def from_py(expr, env, on_subscript=None):
         fr = number_fraction(n)
         if fr is not None:
             return RF.const(fr)
+        if isinstance(n, (ast.List, ast.Tuple)):
+            return [ev(e) for e in n.elts]
         if isinstance(n, ast.Name):
             if n.id in env:
                 return env[n.id]
@@ -302,6 +304,19 @@ def from_py(expr, env, on_subscript=None):
                 return ev(n.args[0]).pow(c)
             if short in FUNCS and len(n.args) == 1:
                 return func_atom(short, ev(n.args[0]))
+            if short == "polyval" and len(n.args) == 2:
+                coeffs = None
+                if isinstance(n.args[0], (ast.List, ast.Tuple)):
+                    coeffs = [ev(c) for c in n.args[0].elts]
+                elif isinstance(n.args[0], ast.Name) and isinstance(
+                        env.get(n.args[0].id), list):
+                    coeffs = env[n.args[0].id]
+                if coeffs is not None:
+                    x = ev(n.args[1])
+                    out = RF.const(0)
+                    for c in coeffs:
+                        out = out * x + c
+                    return out
             if short in ("deg2rad", "radians") and len(n.args) == 1:
                 return ev(n.args[0]) * RF.sym("pi") / RF.const(180)
             if short in ("abs", "absolute") and len(n.args) == 1:
